@@ -42,6 +42,8 @@ def violators (e : Env) (s : State) : List (String × String × List String) :=
     ("C11", "modelOutlivesShards", s.shards.filterMap (fun sh => if sh.status ≠ ShardCompleted || (addU64 sh.createdAt sh.duration : Int) ≤ s.h ||
         (match s.getOrder sh.orderId with | some o => (s.getMeta o.dataId).isSome | none => true) then none else some s!"shard{sh.id}")),
     ("C11", "shardBacked", s.shards.filterMap (fun sh => if sh.status ≠ ShardCompleted || ((s.getPledge sh.sp).isSome && (s.getWorker sh.sp).isSome) then none else some s!"shard{sh.id}")),
+    -- "its income stops": a provider's income rate and stored bytes are those of the shards it stores — nothing of a released shard
+    ("C11", "incomeStops", (providersOf s).filterMap (fun p => if workerAgrees s p then none else some s!"sp{p}")),
     ("C11", "metaLifetimeSane", s.metas.filterMap (fun m => if m.createdAt + m.duration < 9223372036854775808 then none else some s!"meta{m.dataId.take 8}")),
     ("C04", "escrowsSettled", if escrowsSettled e s then [] else ["escrows"]),
     ("C17", "didFunctional", if didFunctional s.did then [] else ["did"]),
@@ -261,6 +263,18 @@ def checkStep (e : Env) (pre : Sys) (op : Op) (res : Res) (post : Sys) (origin :
    | .perm _ _ _ d ro rw _, .ok =>
      (match post.st.getMeta d with
       | some m => if m.readonlyDids = ro && m.readwriteDids = rw then [] else [("C09", s!"clause=permApplied cls=none rec=meta{d.take 8}")]
+      | none => [])
+   | _, _ => []) ++
+  -- C09: the content a completion puts into the model is the content of the signed request (the order's), whatever the
+  -- completing provider reports
+  (match op, res with
+   | .complete _ _ oid _ _ _, .ok =>
+     (match pre.st.getOrder oid with
+      | some o =>
+        (match post.st.getMeta o.dataId with
+         | some m' => if (pre.st.getMeta o.dataId).map (·.cid) ≠ some m'.cid && m'.cid ≠ o.cid
+                      then [("C09", s!"clause=contentAsSigned cls=none rec=meta{o.dataId.take 8}")] else []
+         | none => [])
       | none => [])
    | _, _ => []) ++
   -- C10: the actor of an accepted message must be entitled to act for what it touched
